@@ -59,8 +59,10 @@ def get_unit_and_comment_from_assignment(
             try:
                 # Try to parse the unit
                 unit = units.ureg(potential_unit.text)
-            except (units.pint.UndefinedUnitError, AttributeError):
-                # Not a proper unit so it's a comment
+            except Exception:
+                # Not a proper unit so it's a comment. The text is free form, and pint
+                # evaluates it, so any exception can be raised (e.g. ZeroDivisionError for
+                # '1/0', a tokenizer error for '(((' or a syntax error for '2**')
                 return None, atoms.Comment(potential_unit.text)
             else:
                 if isinstance(unit, units.pint.Quantity):
